@@ -105,26 +105,53 @@ def run(chk):
 
     # ---- finite differences on real PT-TEMPO process tensors (numerical, the property's own oracle) ---
     sx, sz = oqupy.operators.sigma("x"), oqupy.operators.sigma("z")
-    n_fd = 6 if (thorough or chk.disagreements or chk.broken) else 2
+    n_fd = 12 if (thorough or chk.disagreements or chk.broken) else 4
+    shape_offset = rng.randint(0, 4)     # any 4 consecutive shapes contain a partially degenerate table
     for it in range(n_fd):
         par = oqupy.TempoParameters(dt=0.2, epsrel=1e-7, dkmax=3)
         N = 3
         ops = [0.5 * sz, 0.5 * sx] if it % 2 == 0 else [0.5 * sz]
         pts = [quiet(oqupy.pt_tempo_compute, oqupy.Bath(o, oqupy.PowerLawSD(alpha=0.2, zeta=1, cutoff=2.0, cutoff_type="exponential")),
                      0.0, N * 0.2, parameters=par, progress_type="silent") for o in ops]
-        psys = oqupy.ParameterizedSystem(lambda x, y: x * sx + y * sz,
+        base = oqupy.ParameterizedSystem(lambda x, y: x * sx + y * sz,
                                          gammas=[lambda x, y: 0.1 + 0.05 * x * x], lindblad_operators=[lambda x, y: oqupy.operators.sigma("-")])
+        # both routes through the library's own get_propagator_derivatives: numerically differentiated / user supplied
+        supplied = (it // 2) % 2 == 1
+        if supplied:
+            psys = oqupy.ParameterizedSystem(lambda x, y: x * sx + y * sz,
+                                             gammas=[lambda x, y: 0.1 + 0.05 * x * x], lindblad_operators=[lambda x, y: oqupy.operators.sigma("-")],
+                                             propagator_derivatives=lambda dt, p: base.halfstep_propagator_derivative(dt)(p))
+        else:
+            psys = base
+        # parameter tables: generic, and degenerate ones (a control held constant within a step / throughout)
+        shape = ["generic", "column-constant", "equal-within-step", "one-equal-one-step", "all-constant"][(it + shape_offset) % 5]
         params = np.array([[0.3 + 0.1 * k, 0.2 - 0.05 * k] for k in range(2 * N)])
+        if shape == "column-constant":
+            params[:, rng.randint(0, 1)] = 0.4
+        elif shape == "equal-within-step":
+            params[1::2] = params[0::2]
+        elif shape == "one-equal-one-step":
+            k0 = rng.randint(0, N - 1)
+            j0 = rng.randint(0, 1)
+            params[2 * k0 + 1, j0] = params[2 * k0, j0]
+        elif shape == "all-constant":
+            params[:, 0] = 0.35
+            params[:, 1] = -0.15
         rho0 = oqupy.operators.spin_dm("x+")
         target = oqupy.operators.spin_dm("z-").T
-        res = quiet(oqupy.state_gradient, system=psys, initial_state=rho0, target_derivative=target, process_tensors=pts,
-                    parameters=params.copy(), progress_type="silent")
+        info = {"envs": len(ops), "parameter_table": shape, "derivatives": "user-supplied" if supplied else "numerical", "parameters": params.tolist()}
+        try:
+            res = quiet(oqupy.state_gradient, system=psys, initial_state=rho0, target_derivative=target, process_tensors=pts,
+                        parameters=params.copy(), progress_type="silent")
+        except Exception as ex:
+            chk.fail("gradient-raises", f"state_gradient raises {ex!r}", info)
+            continue
 
         def obj(pp):
-            r = quiet(compute_gradient_and_dynamics, system=psys, initial_state=rho0, target_derivative=target, process_tensors=pts,
+            r = quiet(compute_gradient_and_dynamics, system=base, initial_state=rho0, target_derivative=target, process_tensors=pts,
                       parameters=pp, dt=0.2, num_steps=N, progress_type="silent")[1]
             return np.sum(target.reshape(-1) * np.array(r.states[-1]).reshape(-1)).real
-        worst = 0.0
+        worst, where = 0.0, None
         for k in range(2 * N):
             for j in range(2):
                 h = 1e-4
@@ -132,12 +159,16 @@ def run(chk):
                 pp[k, j] += h
                 pm[k, j] -= h
                 fd = (obj(pp) - obj(pm)) / (2 * h)
-                worst = max(worst, abs(fd - res["gradient"][k][j].real))
+                dev = abs(fd - res["gradient"][k][j].real)
+                if dev > worst:
+                    worst, where = dev, (k, j)
         chk.search_cases += 1
-        chk.count("finite_differences")
+        chk.count("finite_differences_" + shape)
+        chk.case({k: v for k, v in info.items() if k != "parameters"}, ("fd", it, shape, supplied, len(ops)))
         if worst > 1e-5:
             chk.fail("gradient-vs-finite-differences" + ("-multi-env" if len(ops) > 1 else ""),
-                     f"state_gradient deviates from central finite differences by {worst:.2e} ({len(ops)} environment(s))", {"envs": len(ops)})
+                     f"state_gradient deviates from central finite differences by {worst:.2e} at entry {where} ({len(ops)} environment(s), "
+                     f"{shape} parameter table, {info['derivatives']} propagator derivatives)", info)
 
     return chk.finish(
         level="proof",
@@ -146,6 +177,7 @@ def run(chk):
         rule="integer process tensors (1-2 environments, rank 3/4, trivial last bond), integer propagators and 'derivatives', M=1-3 parameters, "
              "N=1-3: every gradient entry compared exactly with the objective re-evaluated at the derivative (multilinearity), reported "
              "dynamics with compute_dynamics, adjoint tensors with the Coq model; finite differences on PT-TEMPO tensors with a "
-             "parameter-dependent dissipator; distinct = distinct configuration",
+             "parameter-dependent dissipator, generic and degenerate parameter tables (a control constant within a step, within a column, "
+             "throughout), numerically differentiated and user-supplied propagator derivatives; distinct = distinct configuration",
         assumptions=["propagator derivatives supplied by the user / numerically differentiated by the library are taken as given (contract)",
                      "process tensors with a non-trivial final bond are outside the gradient code's domain (it ignores the final cap)"])
